@@ -1,4 +1,6 @@
-//! Toy key-homomorphic NIKE: scalars in Z_p (p = 251), "points" are exponents
+//! Toy key-homomorphic NIKE: scalars in Z_p (p = 251 natively, p = 13 under
+//! Kani: proving identities of symbolic modular multiplication is what SAT
+//! solvers are worst at, so the field is kept tiny there), "points" are exponents
 //! of the generator in the additive group (Z_p, +), i.e. `Point(x)` stands for
 //! `g^x`. All group / ring laws used by the scheme hold exactly; discrete
 //! logarithms are of course trivial (no secrecy is modelled, only algebra).
@@ -15,7 +17,10 @@ use super::hash::{Hasher, Sha3};
 use crate::traits::{Group, KeyHomomorphicNike, Nike, One, Ring, Sampling, Zero};
 use crate::Error;
 
+#[cfg(not(kani))]
 pub const P: u16 = 251;
+#[cfg(kani)]
+pub const P: u16 = 13;
 
 const fn inv_table() -> [u8; P as usize] {
     let mut table = [0u8; P as usize];
